@@ -54,10 +54,67 @@ type recUpdater struct {
 	mu       sync.Mutex
 	proxyIPs map[string]int
 	calls    map[string]int
+	// order of the controller's calls per hostname: when the service was first announced, and when
+	// its slices were last converted and pushed (EDSUpdate; EDSCacheUpdate re-sends converted endpoints)
+	seq        int
+	svcFirstAt map[string]int
+	firstSeen  map[*model.IstioEndpoint]int // when a converted endpoint object was first handed over
+	edsCalls   map[string]int               // EDSUpdate calls per hostname
+	idx        *model.EndpointIndex
+}
+
+func (u *recUpdater) edsCallsFor(host string) int {
+	u.mu.Lock()
+	defer u.mu.Unlock()
+	return u.edsCalls[host]
 }
 
 func newRecUpdater(idx *model.EndpointIndex) *recUpdater {
-	return &recUpdater{d: model.NewEndpointIndexUpdater(idx), proxyIPs: map[string]int{}, calls: map[string]int{}}
+	return &recUpdater{d: model.NewEndpointIndexUpdater(idx), proxyIPs: map[string]int{}, calls: map[string]int{},
+		svcFirstAt: map[string]int{}, firstSeen: map[*model.IstioEndpoint]int{}, edsCalls: map[string]int{}, idx: idx}
+}
+
+func (u *recUpdater) sawEndpoints(eps []*model.IstioEndpoint) {
+	u.mu.Lock()
+	u.seq++
+	for _, e := range eps {
+		if _, ok := u.firstSeen[e]; !ok {
+			u.firstSeen[e] = u.seq
+		}
+	}
+	u.mu.Unlock()
+}
+
+// convertedBeforeServiceKnown: the endpoint object the index holds for (host, addr, port) was
+// handed over by the controller before it announced the service (the service handler stores
+// the service, then announces it; an endpoint is a fresh object per conversion).
+func (u *recUpdater) convertedBeforeServiceKnown(host, ns, addr, port string) bool {
+	sh, ok := u.idx.ShardsForService(host, ns)
+	if !ok {
+		return false
+	}
+	var found []*model.IstioEndpoint
+	sh.RLock()
+	for _, eps := range sh.Shards {
+		for _, e := range eps {
+			if e.FirstAddressOrNil() == addr && e.ServicePortName == port {
+				found = append(found, e)
+			}
+		}
+	}
+	sh.RUnlock()
+	u.mu.Lock()
+	defer u.mu.Unlock()
+	s, known := u.svcFirstAt[host]
+	if !known || len(found) == 0 {
+		return false
+	}
+	for _, e := range found {
+		if at, ok := u.firstSeen[e]; !ok || at > s {
+			return false
+		}
+	}
+	return true
 }
 
 func (u *recUpdater) count(what string) {
@@ -72,16 +129,29 @@ func (u *recUpdater) ConfigUpdate(req *model.PushRequest) {
 }
 func (u *recUpdater) EDSUpdate(s model.ShardKey, h, ns string, e []*model.IstioEndpoint) {
 	u.count("EDSUpdate")
+	u.sawEndpoints(e)
+	defer func() { // after the index has been written
+		u.mu.Lock()
+		u.edsCalls[h]++
+		u.mu.Unlock()
+	}()
 	u.d.EDSUpdate(s, h, ns, e)
 }
 
 func (u *recUpdater) EDSCacheUpdate(s model.ShardKey, h, ns string, e []*model.IstioEndpoint) {
 	u.count("EDSCacheUpdate")
+	u.sawEndpoints(e)
 	u.d.EDSCacheUpdate(s, h, ns, e)
 }
 
 func (u *recUpdater) SvcUpdate(s model.ShardKey, h, ns string, ev model.Event) {
 	u.count("SvcUpdate")
+	u.mu.Lock()
+	u.seq++
+	if _, ok := u.svcFirstAt[h]; !ok && ev != model.EventDelete {
+		u.svcFirstAt[h] = u.seq
+	}
+	u.mu.Unlock()
 	u.d.SvcUpdate(s, h, ns, ev)
 }
 
@@ -119,6 +189,7 @@ type world struct {
 	barrierRounds int
 	barrierLost   string
 	opsApplied    int
+	podKnown      map[objID]bool // pods the pod watch (field selector status.phase!=Failed) currently shows
 }
 
 func svcHost(name, ns string) host.Name {
@@ -188,9 +259,15 @@ func protop(p corev1.Protocol) *corev1.Protocol { return &p }
 // newWorld starts a controller on a client pre-loaded with objs (cold start when objs holds
 // a cluster; an otherwise empty cluster when it holds only the sentinels).
 func newWorld(name string, objs []kruntime.Object) *world {
-	w := &world{name: name, f: vh.NewF()}
+	w := &world{name: name, f: vh.NewF(), podKnown: map[objID]bool{}}
 	cp := make([]kruntime.Object, 0, len(objs))
 	for _, o := range objs {
+		if p, ok := o.(*corev1.Pod); ok {
+			if p.Status.Phase == corev1.PodFailed {
+				continue // never listed by a watch with status.phase!=Failed
+			}
+			w.podKnown[idOf(p)] = true
+		}
 		cp = append(cp, o.DeepCopyObject())
 		if ns, ok := o.(*corev1.Namespace); ok && ns.Name == systemNS {
 			w.sysNetwork = ns.Labels[networkLabel]
@@ -265,12 +342,19 @@ func (w *world) bumpSlice() bool {
 	ip := genIP(251, w.gen)
 	o := sentinelObjects()[3].(*discoveryv1.EndpointSlice)
 	o.Endpoints[0].Addresses = []string{ip}
+	h := string(svcHost(sentinelSvc, barrierNS))
+	before := w.upd.edsCallsFor(h)
 	if _, err := w.client.Kube().DiscoveryV1().EndpointSlices(barrierNS).Update(bg, o, metav1.UpdateOptions{}); err != nil {
 		vh.Abort("sentinel slice update: %v", err)
 	}
-	h := string(svcHost(sentinelSvc, barrierNS))
 	w.barrierRounds++
+	// the slice handler ends with an EDSUpdate call for the slice's hostname whatever the conversion
+	// yields; only sentinel slice events cause one for the sentinel hostname. Seeing the call (or the
+	// address itself) means the handler has run; the barrier must not depend on a correct conversion.
 	return w.wait("endpointslice sentinel", func() bool {
+		if w.upd.edsCallsFor(h) > before {
+			return true
+		}
 		sh, ok := w.idx.ShardsForService(h, barrierNS)
 		if !ok {
 			return false
@@ -370,13 +454,23 @@ func (w *world) settle() bool {
 	return w.bumpNamespace() && w.bumpNode() && w.bumpPod() && w.bumpSlice() && w.bumpService() && w.bumpService() && w.bumpService()
 }
 
-// apply issues one operation through the clientset.
+// apply issues one operation through the clientset. The fake API server does not implement
+// field selectors; the controller watches pods with status.phase!=Failed, so what such a watch
+// delivers is produced here: a pod turning Failed is a deletion, a Failed pod is never seen.
 func (w *world) apply(o *op) {
 	var err error
 	k := w.client.Kube()
-	verb := o.Verb
-	if verb == "replay" {
-		verb = "update"
+	verb, skip := failedPodVerb(o, w.podKnown[o.Obj])
+	if skip {
+		w.opsApplied++
+		return
+	}
+	if o.Obj.Kind == kPod {
+		if verb == "delete" {
+			delete(w.podKnown, o.Obj)
+		} else {
+			w.podKnown[o.Obj] = true
+		}
 	}
 	switch o.Obj.Kind {
 	case kNamespace:
